@@ -28,7 +28,7 @@ ASSUMPTIONS = [
     "vlib/kgspec.py reproduces the KlattGrid / point-object text layouts of the repository's Praat-written fixtures (trusted base)",
     "-0.0 and 0.0 are the same value",
 ]
-REQUIRED_CLASSES = ["klatt_constructed:shared_point_list", "klatt_synthetic:sub_tier_modified_directly_after_save", "klatt_synthetic:ten_or_more_formants", "klatt_synthetic:last_subtier_has_points", "klatt_synthetic:one_digit_value", "klatt_synthetic:modified",
+REQUIRED_CLASSES = ["klatt_constructed:shared_point_list", "klatt_synthetic:sub_tier_modified_directly_after_save", "klatt_synthetic:ten_or_more_formants", "klatt_synthetic:last_subtier_has_points", "klatt_synthetic:one_digit_value", "klatt_synthetic:modified", "klatt_constructed:first_value_kept_later_changed",
                     "point_objects:zero_points", "point_objects:long", "klatt_fixture:fixture"]
 
 
@@ -149,8 +149,17 @@ MODS = {
 MOD_NAMES = sorted(MODS) + ["x0.9_default_arg", "+0.5_default_arg", "def_with_option"]
 
 
+FIXED_FIRST = [False]
+
+
+def _note_fixed_first(points, f):
+    if len(points) >= 2 and float(f(points[0][1])) == points[0][1] and any(float(f(b)) != b for _, b in points[1:]):
+        FIXED_FIRST[0] = True
+
+
 def apply_mods(kg, snap, mods):
     """Apply through the API and to the snapshot model."""
+    FIXED_FIRST[0] = False
     exp = copy.deepcopy(snap)
     secs = {s["name"]: s for s in exp["sections"]}
     for target, fname in mods:
@@ -165,6 +174,7 @@ def apply_mods(kg, snap, mods):
                 continue
             t = grp["tiers"][int(idx) % len(grp["tiers"])]
             kg.getTier(cname).tierDict[gname].tierDict[t["name"]].modifyValues(f)
+            _note_fixed_first(t["points"], f)
             t["points"] = [[a, float(f(b))] for a, b in t["points"]]
         elif "/" in target:
             cname, gname = target.split("/")
@@ -175,11 +185,13 @@ def apply_mods(kg, snap, mods):
                 continue
             kg.getTier(cname).modifySubtiers(gname, f)
             for t in grp["tiers"]:
+                _note_fixed_first(t["points"], f)
                 t["points"] = [[a, float(f(b))] for a, b in t["points"]]
         else:
             if target not in secs or secs[target]["kind"] != "points":
                 continue
             kg.getTier(target).modifyValues(f)
+            _note_fixed_first(secs[target]["points"], f)
             secs[target]["points"] = [[a, float(f(b))] for a, b in secs[target]["points"]]
     return exp
 
@@ -213,6 +225,8 @@ def run_synthetic(case):
         got = kgspec.snapshot(kg2)
         diff_snap(got, exp, f"after modifications {case['mods']}")
         _roundtrip(kg2, got, f"round trip after {case['mods']}")
+        if FIXED_FIRST[0]:
+            cl.add("first_value_kept_later_changed")
         if exp != snap1:
             cl.add("modified")
             if any(t.count("/") == 2 for t, _ in case["mods"]):
@@ -424,6 +438,7 @@ def run_constructed(case):
     want0 = [(float(t), float(v)) for t, v in template]
     if any(v != want0 for v in exp.values()):
         raise Violation("constructed-differs", f"a tier does not hold the points it was built from: {exp}")
+    FIXED_FIRST[0] = False
     for target, fname in case["mods"]:
         f = MODS[fname]
         if "/" in target:
@@ -433,6 +448,7 @@ def run_constructed(case):
             kg.getTier(target).modifyValues(f)
             hit = [target]
         for k in hit:
+            _note_fixed_first(exp[k], f)
             exp[k] = [(t, float(f(v))) for t, v in exp[k]]
         got = _kg_paths(kg)
         for k in exp:
@@ -456,7 +472,8 @@ def run_constructed(case):
         if back[k] != exp[k]:
             raise Violation("roundtrip-values", f"tier {k} reopened as {back[k]}, expected {exp[k]}")
     cl = ["constructed"] + (["shared_point_list"] if case["share"] else []) + (["modified"] if case["mods"] else []) \
-        + (["sub_tiers_with_spans_of_their_own"] if case.get("own_spans") and case["n"] > 1 else [])
+        + (["sub_tiers_with_spans_of_their_own"] if case.get("own_spans") and case["n"] > 1 else []) \
+        + (["first_value_kept_later_changed"] if FIXED_FIRST[0] else [])
     return {"classes": cl, "nontrivial": bool(case["mods"]) and bool(template)}
 
 
